@@ -853,13 +853,22 @@ func (a AssignInstr) Execute(env *Zlisp) error {
 	if err != nil {
 		return err
 	}
+	// an assignment is an expression: like def and set it leaves the assigned
+	// value on the stack.
 	switch x := lhs.(type) {
 	case *SexpSymbol:
-		return env.LexicalBindSymbol(x, rhs)
+		if err := env.LexicalBindSymbol(x, rhs); err != nil {
+			return err
+		}
+		env.datastack.PushExpr(rhs)
+		return nil
 	case Selector:
 		Q("AssignInstr: I see lhs is Selector")
-		err := x.AssignToSelection(env, rhs)
-		return err
+		if err := x.AssignToSelection(env, rhs); err != nil {
+			return err
+		}
+		env.datastack.PushExpr(rhs)
+		return nil
 	case *SexpArray:
 		switch rhsArray := rhs.(type) {
 		case *SexpArray:
@@ -882,6 +891,7 @@ func (a AssignInstr) Execute(env *Zlisp) error {
 						" we found %T", i, x.Val[i])
 				}
 			}
+			env.datastack.PushExpr(rhs)
 			return nil
 		default:
 			return fmt.Errorf("AssignInstr: don't know how to assign rhs %T `%v` to lhs %T `%v`",
